@@ -41,16 +41,18 @@ Update ==
     ELSE UNCHANGED svars
 
 Running == verdict = "run" /\ l <= Len(Tr)
-Step   == Running /\ Judge = "ok" /\ Update /\ l' = l + 1 /\ UNCHANGED <<tid, verdict, clause>>
+(* the current event is judged once; "ok" advances, anything else ends the trace with that clause *)
+Step   == /\ Running
+          /\ \E j \in {Judge} :
+                IF j = "ok"
+                THEN Update /\ l' = l + 1 /\ UNCHANGED <<tid, verdict, clause>>
+                ELSE verdict' = "REJECT" /\ clause' = j /\ UNCHANGED <<usedIV, usedCt, encs, tid, l>>
 Finish == /\ verdict = "run" /\ l = Len(Tr) + 1
           /\ verdict' = "ACCEPT" /\ UNCHANGED <<usedIV, usedCt, encs, tid, l, clause>>
-Reject == /\ Running /\ Judge # "ok"
-          /\ verdict' = "REJECT" /\ clause' = Judge
-          /\ UNCHANGED <<usedIV, usedCt, encs, tid, l>>
 
 TraceInit == /\ usedIV = {} /\ usedCt = {} /\ encs = {}
              /\ tid \in 1..Len(Traces) /\ l = 1 /\ verdict = "run" /\ clause = ""
-TraceNext == Step \/ Finish \/ Reject
+TraceNext == Step \/ Finish
 TraceSpec == TraceInit /\ [][TraceNext]_tvars
 
 Done == verdict # "run" => PrintT(<<"V", Traces[tid].tid, verdict, l, clause>>)
